@@ -13,6 +13,7 @@ mod ft;
 mod pipe;
 mod mrg;
 mod flt;
+mod arg;
 
 pub use rng::Rng;
 
@@ -35,6 +36,7 @@ fn area(name: &str) -> Box<dyn Area> {
         "pipe" => Box::new(pipe::Pipe),
         "mrg" => Box::new(mrg::Mrg),
         "flt" => Box::new(flt::Flt),
+        "arg" => Box::new(arg::Arg),
         _ => {
             eprintln!("unknown area {}", name);
             std::process::exit(2)
